@@ -476,6 +476,53 @@ def reused_delete_object(col, rng):
         col.violation('C12/wildcard-over-mixed-kinds', "delete([dict, obj, dict], '*.x'): %r, target %s" % (got if not got.ok else 'returned', short(t)), None)
 
 
+class _Vault:
+    """children reachable only through the get handler a Glommer registers for it (no attributes, no __getitem__)"""
+    __slots__ = ('_cells',)
+
+    def __init__(self, **cells):
+        self._cells = cells
+
+
+def _vault_get(v, k):
+    return v._cells[k]
+
+
+def delete_runs_in_the_context_of_the_call(col):
+    """the parent of the addressed element is reached with everything the running call has: the registry of the Glommer the call
+    goes through (a type whose children only its registered get handler reaches) and the scope (a segment taken from S)"""
+    from glom import Glommer, S
+    g = Glommer()
+    g.register(_Vault, get=_vault_get)
+    mk = lambda: {'v': _Vault(inner={'x': 1, 'y': 2}, lst=[10, 20, 30]), 'a': {'x': 1, 'y': 2}, 'b': {'x': 3}}
+    cases = [
+        # (description, runner, spec, plain Python on a twin, expected error class when plain Python fails)
+        ('Glommer, registered type on the parent path (string)', lambda t, sp: g.glom(t, sp), lambda: Delete('v.inner.x'), lambda t: t['v']._cells['inner'].__delitem__('x')),
+        ('Glommer, registered type on the parent path (Path)', lambda t, sp: g.glom(t, sp), lambda: Delete(Path('v', 'lst', 1)), lambda t: t['v']._cells['lst'].__delitem__(1)),
+        ('Glommer, registered type behind a star', lambda t, sp: g.glom(t, sp), lambda: Delete(Path(T.__star__(), 'inner', 'y'), ignore_missing=True), lambda t: t['v']._cells['inner'].__delitem__('y')),
+        ('segment taken from the scope (S step before)', G, lambda: (S(which='a'), Delete(T[S['which']]['x'])), lambda t: t['a'].__delitem__('x')),
+        ('segment taken from the caller scope', lambda t, sp: G(t, sp, scope={'which': 'b'}), lambda: Delete(T[S['which']]['x']), lambda t: t['b'].__delitem__('x')),
+        ('segment taken from the scope, inside a list spec', G, lambda: ('rows', [(S(k=T['k']), Delete(T['d'][S['k']]['x']))]), None),
+    ]
+    for desc, runner, mk_spec, py in cases:
+        if py is None:
+            t = {'rows': [{'k': 'p', 'd': {'p': {'x': 1, 'z': 0}, 'q': {'x': 2}}}, {'k': 'q', 'd': {'p': {'x': 3}, 'q': {'x': 4, 'z': 0}}}]}
+            w = {'rows': [{'k': 'p', 'd': {'p': {'x': 1, 'z': 0}, 'q': {'x': 2}}}, {'k': 'q', 'd': {'p': {'x': 3}, 'q': {'x': 4, 'z': 0}}}]}
+            del w['rows'][0]['d']['p']['x'], w['rows'][1]['d']['q']['x']
+            read = lambda t: t
+        else:
+            t, w = mk(), mk()
+            py(w)
+            read = lambda t: {'v': t['v']._cells, 'a': t['a'], 'b': t['b']}
+        got = call(runner, t, mk_spec())
+        col.case(('context-of-the-call', desc), True)
+        col.count('successful_deletions')
+        if not got.ok:
+            col.violation('C12/delete-leaves-the-context-of-the-call:raises', '%s: %r (plain Python can do it)' % (desc, got.exc), None)
+        elif read(t) != read(w):
+            col.violation('C12/delete-leaves-the-context-of-the-call:effect-differs', '%s: target now %r, plain Python gives %r' % (desc, read(t), read(w)), None)
+
+
 def run(ctx):
     col, rng = ctx.col, ctx.rng
     col.require('successful_deletions', 200)
@@ -487,6 +534,7 @@ def run(ctx):
         attribute_vs_item_on_container_subclasses(col)
         second_level_container_subclasses(col, 24 if not ctx.thorough else 64)
         attributes_that_are_visible_but_not_deletable(col)
+        delete_runs_in_the_context_of_the_call(col)
         reused_delete_object(col, rng)
     for i in range(ctx.n(350, 3500)):
         one_target(col, rng)
